@@ -154,7 +154,24 @@ func checkPoly(c polyCase, o *kit.Obs) error {
 		}
 		return nil
 	}
+	before := append(numerical.Polynomial(nil), lib...)
 	got := append([]float64(nil), lib.RealRoots()...)
+	// a root query only reads the polynomial: the caller's coefficients are unchanged and asking again gives
+	// the same answer
+	for i := range before {
+		if math.Float64bits(before[i]) != math.Float64bits(lib[i]) {
+			return fmt.Errorf("RealRoots changed the polynomial it was called on: coefficient %d was %v, is %v (all: %v -> %v)", i, before[i], lib[i], before, lib)
+		}
+	}
+	again := lib.RealRoots()
+	if len(again) != len(got) {
+		return fmt.Errorf("RealRoots called twice on the same polynomial %v returned %v and then %v", before, got, again)
+	}
+	for i := range again {
+		if again[i] != got[i] {
+			return fmt.Errorf("RealRoots called twice on the same polynomial %v returned %v and then %v", before, got, again)
+		}
+	}
 	sort.Float64s(got)
 	if len(got) != len(c.Roots) {
 		return fmt.Errorf("RealRoots returned %d roots %v, planted %d real roots %v (and %d irreducible quadratics); coefficients %v", len(got), got, len(c.Roots), c.Roots, len(c.Quads), p)
